@@ -1,5 +1,215 @@
-"""Contract model of the pandas vocabulary used by the numeric core (filled in per need)."""
+"""Contract model of the pandas vocabulary used by the numeric core (DESIGN T2).
+
+Series / rolling windows (attenuated_signal_test) and DatetimeIndex period attributes
+(climatology).  Statistics over a window are *uninterpreted*: the model returns fresh function
+symbols, records the arguments the code passed (ghost state) and states only the NaN rule of
+`Series.rolling(f"{p}s", min_periods=m)`:
+   window of row k = rows j with t[k]-p < t[j] <= t[k]      (closed='right', the default)
+   .std()                     NaN iff fewer than max(m, 2) non-NaN values in the window (m default 1)
+   .apply(np.ptp, raw=True)   NaN iff fewer than m non-NaN values in the window or the window holds a NaN
+In the concrete reading the real pandas is called, so the conformance run compares the model's
+control flow around these calls, and the stand-ins compare the NaN rule with pandas itself.
+"""
 import types
+from fractions import Fraction
+
+import z3
+
+from . import alg
+from . import npmodel as M
+from .ctx import Unsupported, cur
+from .npmodel import Arr, MArr
+from .values import SBool, SNum, raw, token_value
+
+
+def _concrete_list(a):
+    from .npfuncs import _concrete_values
+
+    return _concrete_values(a)
+
+
+class Series:
+    __hash__ = None
+    __array_priority__ = 1000
+
+    def __init__(self, data=None, index=None, dtype=None):
+        if data is None:
+            data = M.from_values([], "f" if dtype is None else M.dtype_of(dtype).kind)
+        if isinstance(data, MArr):
+            # pd.Series(masked array): masked entries become NaN
+            d, mk = data._data.getter(), (data._mask.getter() if data._mask is not None else None)
+            kind = data.kind
+            if mk is not None:
+                data = Arr(data.n, kind, lambda i: (alg.or_(d(i)[0], mk(i)[1]), d(i)[1]), data.unit)
+            else:
+                data = data._data.copy()
+        elif isinstance(data, Arr):
+            data = data.copy()
+        else:
+            raise Unsupported("pd.Series(%r)" % (type(data),))
+        self.values_arr = data
+        if index is not None:
+            if isinstance(index, MArr):
+                index = index._data
+            if not isinstance(index, Arr):
+                raise Unsupported("Series index %r" % (type(index),))
+            if not M._same_len(index.n, data.n):
+                raise ValueError("Length of values does not match length of index")
+            index = index.copy()
+        self.index_arr = index
+
+    def __pyvc_array__(self):
+        return self.values_arr
+
+    @property
+    def n(self):
+        return self.values_arr.n
+
+    def to_numpy(self):
+        return self.values_arr.copy()
+
+    @property
+    def values(self):
+        return self.values_arr
+
+    @property
+    def dtype(self):
+        return self.values_arr.dtype
+
+    def rolling(self, window, min_periods=None):
+        return Rolling(self, window, min_periods)
+
+    def _cmp(self, o, op):
+        return Series(M.ew_binop(op, self.values_arr, o), self.index_arr)
+
+    def __lt__(self, o):
+        return self._cmp(o, "lt")
+
+    def __le__(self, o):
+        return self._cmp(o, "le")
+
+    def __gt__(self, o):
+        return self._cmp(o, "gt")
+
+    def __ge__(self, o):
+        return self._cmp(o, "ge")
+
+
+class Rolling:
+    def __init__(self, series, window, min_periods):
+        c = cur()
+        c.use("pandas.Series.rolling(time window).std/apply")
+        if series.index_arr is None or series.index_arr.kind != "M":
+            raise ValueError("window must be an integer 0 or greater")
+        if not isinstance(window, str):
+            raise Unsupported("integer rolling window")
+        tv = token_value(window)
+        if tv is None:
+            if not window.endswith("s"):
+                raise Unsupported("rolling window %r" % window)
+            period = SNum(alg.conc(float(window[:-1])), False, "pyf")
+        else:
+            pre, period, suf = tv
+            if pre != "" or suf != "s":
+                raise Unsupported("rolling window format %r" % window)
+        self.series = series
+        self.period = period
+        if min_periods is not None and not isinstance(min_periods, (int, SNum)):
+            raise Unsupported("min_periods %r" % (min_periods,))
+        self.min_periods = min_periods
+        # pandas: the window must be positive, min_periods >= 0, index monotonic
+        pv = period.val
+        c.ensure(alg.and_(alg.not_(period.nan), alg.gt(pv, 0)), ValueError, "window must be positive")
+        if min_periods is not None:
+            c.ensure(alg.ge(raw(min_periods), 0), ValueError, "min_periods must be >= 0")
+        n = series.n
+        t = series.index_arr.getter()
+        if alg.as_concrete(n) is None:
+            k = c.fresh("mono", z3.IntSort())
+            bad = alg.and_(alg.le(0, k), alg.lt(alg.add(k, 1), n), alg.gt(t(k)[1], t(alg.add(k, 1))[1]))
+            if alg.simp(bad) is not False:
+                c.index_seeds.append(k)
+                if c.fork(bad):
+                    raise ValueError("index values must be monotonic")
+                c.add_fact("index-monotonic", lambda i: alg.implies(alg.and_(alg.le(0, i), alg.lt(alg.add(i, 1), n)), alg.le(t(i)[1], t(alg.add(i, 1))[1])))
+        else:
+            tc = _concrete_list(series.index_arr)
+            if tc is not None and any(a[1] > b[1] for a, b in zip(tc, tc[1:])):
+                raise ValueError("index values must be monotonic")
+        self.ghost = None
+
+    def _setup(self, stat):
+        c = cur()
+        s = self.series
+        n = s.n
+        vals = s.values_arr.getter()
+        conc = _concrete_list(s.values_arr)
+        tcon = _concrete_list(s.index_arr)
+        pc = alg.as_concrete(self.period.val)
+        mp = self.min_periods
+        mpc = None if mp is None else alg.as_concrete(raw(mp))
+        if conc is not None and tcon is not None and pc is not None and (mp is None or mpc is not None):
+            return self._concrete(stat, conc, tcon, pc, mpc)
+        wcount = c.fresh_fun("wcount", z3.IntSort(), z3.IntSort())
+        wnan = c.fresh_fun("wnan", z3.IntSort(), z3.BoolSort())
+        wval = c.fresh_fun("w" + stat, z3.IntSort(), z3.RealSort())
+        c.add_fact("wcount-nonneg", lambda k: alg.implies(M.in_range(k, n), alg.and_(alg.ge(wcount(alg.lift(k)), 0), alg.ge(wval(alg.lift(k)), 0))))
+        # the row itself lies in its own window (period > 0)
+        c.add_fact("own-row-in-window", lambda k: alg.implies(M.in_range(k, n), alg.ite(vals(k)[0], wnan(alg.lift(k)), alg.ge(wcount(alg.lift(k)), 1))))
+        # a NaN in the window is a NaN at some row of the window (rows j <= k with t[j] > t[k] - p)
+        wnanw = c.fresh_fun("wnanw", z3.IntSort(), z3.IntSort())
+        tt = s.index_arr.getter()
+        pns = alg.mul(self.period.val, 10**9)
+
+        def nan_witness(k):
+            j = wnanw(alg.lift(k))
+            return alg.implies(alg.and_(M.in_range(k, n), wnan(alg.lift(k))), alg.and_(alg.le(0, j), alg.le(j, k), alg.gt(tt(j)[1], alg.sub(tt(k)[1], pns)), vals(j)[0]))
+
+        c.add_fact("wnan-witness", nan_witness)
+        minp = 1 if mp is None else raw(mp)
+        if stat == "std":
+            isnan = lambda k: alg.lt(wcount(alg.lift(k)), alg.max_(minp, 2))  # noqa: E731
+        else:
+            isnan = lambda k: alg.or_(alg.lt(wcount(alg.lift(k)), minp), wnan(alg.lift(k)))  # noqa: E731
+        if not hasattr(c, "ghost"):
+            c.ghost = {}
+        c.ghost.setdefault("rolling", []).append(
+            {"stat": stat, "values": s.values_arr.copy(), "index": s.index_arr.copy(), "period": self.period, "min_periods": mp, "wcount": wcount, "wnan": wnan, "wval": wval, "isnan": isnan}
+        )
+        out = Arr(n, "f", lambda k: (isnan(k), wval(alg.lift(k))))
+        return Series(out, s.index_arr)
+
+    def _concrete(self, stat, conc, tcon, pc, mpc):
+        """concrete reading: the real pandas"""
+        import numpy as np
+        import pandas as pd
+
+        vals = np.array([np.nan if p[0] else float(p[1]) for p in conc], dtype=np.float64)
+        idx = np.array([int(p[1]) for p in tcon], dtype="datetime64[ns]")
+        ser = pd.Series(vals, index=idx)
+        w = ser.rolling("%ss" % (float(pc),), min_periods=mpc)
+        r = w.std() if stat == "std" else w.apply(np.ptp, raw=True)
+        out = M.from_values([None if v != v else Fraction(float(v)) for v in r.to_numpy().tolist()], "f")
+        return Series(out, self.series.index_arr)
+
+    def std(self):
+        return self._setup("std")
+
+    def apply(self, func, raw=False, engine=None):  # noqa: A002
+        from . import npfuncs
+
+        if engine is not None:
+            # numba is not installed: pandas raises ImportError, the code falls back
+            raise ImportError("Missing optional dependency 'numba'")
+        if func is not npfuncs.np_ptp or raw is not True:
+            raise Unsupported("rolling.apply(%r, raw=%r)" % (func, raw))
+        return self._setup("ptp")
+
+
+def _series_ctor(data=None, index=None, dtype=None):
+    return Series(data, index, dtype)
+
 
 PD = types.SimpleNamespace()
 PD.__pyvc_model__ = True
+PD.Series = _series_ctor
